@@ -262,6 +262,7 @@ RULES = [
     ("C05-R2", "key typing: numeric / datetime columns and functions are ordered by value", r2),
     ("C05-R3", "parse_order_by: positional keys, default direction, desc", r3),
     ("C05-R4", "ordered rows are buffered under their criteria and drained in key order", r4),
+    ("C06-R1", "the ordered buffer loses no row unless a limit is exceeded [shared with C06]", lambda ctx: __import__("c06").r1(ctx)),
 ]
 
 EXPLANATION = (
